@@ -84,6 +84,10 @@ func (j job) input(i int) []byte {
 	return j.Inputs[i]
 }
 
+// abyss: a nesting depth at which unbounded recursion of the decoder (about 200-700 bytes of stack per level)
+// runs into the runtime's 1 GB limit for a goroutine stack: a fatal error that no recover catches.
+const abyss = 6000000
+
 func bombBytes(spec string) []byte {
 	var k int
 	i := strings.LastIndex(spec, ":")
@@ -99,6 +103,27 @@ func bombBytes(spec string) []byte {
 		s = strings.Repeat("m1{", k)
 	case "map-closed":
 		s = strings.Repeat("m1{1", k) + "n" + strings.Repeat("}", k)
+	case "wide-list-open": // every level announces ten million elements
+		s = strings.Repeat("a9999999{", k)
+	case "wide-map-open":
+		s = strings.Repeat("m9999999{", k)
+	case "wide-object-open": // a class of k/4 fields (minimum 8), then objects of it nested k deep
+		n := k / 4
+		if n < 8 {
+			n = 8
+		}
+		var b strings.Builder
+		fmt.Fprintf(&b, `c1"W"%d{`, n)
+		for i := 0; i < n; i++ {
+			b.WriteString("uf")
+		}
+		b.WriteString("}")
+		b.WriteString(strings.Repeat("o0{", k))
+		s = b.String()
+	case "svc-wide-list-open":
+		s = `Cs1"v"` + strings.Repeat("a9999999{", k)
+	case "cli-wide-list-open":
+		s = "R" + strings.Repeat("a9999999{", k)
 	case "svc-list-open":
 		s = `Cs1"v"` + strings.Repeat("a1{", k)
 	case "svc-list-closed":
@@ -708,6 +733,15 @@ func build(thorough bool) spaces {
 	for _, s := range cs {
 		valid = append(valid, s.Bytes)
 	}
+	// hand-built valid streams the corpus cannot contain: maps whose keys are lists, maps and objects (an object
+	// key with a list inside is comparable as a type and not hashable as a value)
+	for _, h := range []string{
+		`m1{c8"IfaceKey"2{s1"k"s1"n"}o0{a1{1}2}ux}`, `m1{c8"IfaceKey"2{s1"k"s1"n"}o0{12}ux}`, `m1{a1{1}ux}`, `m1{m{}ux}`,
+		`m2{c8"IfaceKey"2{s1"k"s1"n"}o0{12}uxo0{m{}2}uy}`, `a2{c8"IfaceKey"2{s1"k"s1"n"}o0{a1{1}2}m1{r2;1}}`,
+	} {
+		valid = append(valid, []byte(h))
+		editSub[h], hugeSub[h] = true, true
+	}
 	edits := in(editSub)
 	if thorough {
 		edits = allOf
@@ -717,7 +751,7 @@ func build(thorough bool) spaces {
 	sp.jobs = append(sp.jobs, chunk("io", ioIn, 100)...)
 	var readerCells []int // stage one of a huge-count input: the reader variants; the coder variants follow
 	for d := range dests {
-		readerCells = append(readerCells, d*len(ioVariants)+0, d*len(ioVariants)+3)
+		readerCells = append(readerCells, d*len(ioVariants)+0, d*len(ioVariants)+3, d*len(ioVariants)+6)
 	}
 	for _, r := range ioRisky {
 		addRisky("io", r, readerCells)
@@ -790,9 +824,24 @@ func build(thorough bool) spaces {
 			if !thorough && k == 100000 && domain == "io" && c >= len(ioVariants) {
 				continue // quick: the deepest bombs go into interface{} only (every other destination reaches the same recursion through decodeError)
 			}
+			if k >= abyss && !(domain == "io" && (c == 1 || c == 3 || (thorough && c < len(ioVariants))) || domain == "svc" && c == 1 || domain == "cli" && c == 2) {
+				continue // the abyss (deep enough to exhaust a 1 GB goroutine stack if nothing bounds the recursion): interface{} in memory and reader-fed, the missing-method service, the client returning interface{}
+			}
 			sp.jobs = append(sp.jobs, job{Domain: domain, Bomb: fmt.Sprintf("%s:%d", kind, k), From: c, To: c + 1, Exact: true, NoCount: true})
 		}
 	}
+	for _, k := range []int{10, 100, 1000, 3000} {
+		for _, kind := range []string{"wide-list-open", "wide-map-open", "wide-object-open"} {
+			bomb("io", kind, k)
+		}
+		bomb("svc", "svc-wide-list-open", k)
+		bomb("cli", "cli-wide-list-open", k)
+	}
+	for _, kind := range []string{"list-open", "map-open"} {
+		bomb("io", kind, abyss)
+	}
+	bomb("svc", "svc-list-open", abyss)
+	bomb("cli", "cli-list-open", abyss)
 	for _, k := range depths {
 		for _, kind := range []string{"list-open", "list-closed", "map-open", "map-closed"} {
 			bomb("io", kind, k)
